@@ -644,6 +644,26 @@ def accessor_part(ctx, sch) -> None:
                 ctx.violation("characteristic-accessor-differs", f"{ctype} ({st.__qualname__}, array={is_array})", {"kind": "accessor", "ctype": ctype})
                 return
             ctx.count("characteristic_accessor_checked")
+            # ... and the way back: a message the application wants to WRITE is handed to build_update as the base64 text of
+            # its canonical encoding (fields longer than 255 bytes travel as several fragments); it comes out unchanged
+            big_items = [gen_struct(rng, schema, 0, big=True, at_least_one=True) for _ in range(rng.randint(1, 2) if is_array else 1)]
+            big_items = [v for v in big_items if not encodes_empty(v, schema)]
+            if not big_items:
+                continue
+            text = base64.b64encode(b"\x00\x00".join(ref.encode_struct(ref_schema(schema), plain(v, schema)) for v in big_items)).decode()
+            if len(text) > 20000:
+                continue
+            try:
+                out = svc.build_update({ctype: text})
+            except Exception as ex:  # noqa: BLE001
+                ctx.violation(f"struct-write-refused-{type(ex).__name__}", f"{ctype} ({st.__qualname__}): build_update refused the canonical encoding ({len(text) * 3 // 4} bytes) of a message: {ex!r}", {"kind": "accessor", "ctype": ctype})
+                return
+            if out != [(1, ch.iid, text)]:
+                ctx.violation("struct-write-altered", f"{ctype} ({st.__qualname__}): build_update returned {str(out)[:120]}", {"kind": "accessor", "ctype": ctype})
+                return
+            if len(text) * 3 // 4 > 255:
+                ctx.count("struct_writes_over_255_bytes")
+            ctx.count("struct_writes_prepared")
 
 
 def run(ctx) -> None:
